@@ -204,6 +204,12 @@ func c05Arith(sh *explore.Shard, idx *int64) {
 // bomb builds a doubling chain: leaf tree with `fan` leaf entries, then depth
 // levels each holding `fan` entries that all point at the level below.
 func bomb(depth, fan int, leaf byte, blobSize uint64) (*mrepo.Repo, mrepo.ID) {
+	return bombF(depth, fan, leaf, blobSize, false)
+}
+
+// bombF: withFile additionally puts one file "z" (sorting after the
+// subdirectories) into every non-leaf level.
+func bombF(depth, fan int, leaf byte, blobSize uint64, withFile bool) (*mrepo.Repo, mrepo.ID) {
 	r := mrepo.New()
 	var blob mrepo.ID
 	if blobSize <= 4096 {
@@ -228,6 +234,9 @@ func bomb(depth, fan int, leaf byte, blobSize uint64) (*mrepo.Repo, mrepo.ID) {
 		var ds []mrepo.Entry
 		for i := 0; i < fan; i++ {
 			ds = append(ds, mrepo.Entry{Mode: 0o40000, Name: fmt.Sprintf("d%d", i), Child: cur})
+		}
+		if withFile {
+			ds = append(ds, mrepo.Entry{Mode: 0o100644, Name: "z", Child: blob})
 		}
 		cur = r.AddTree(ds)
 	}
@@ -281,8 +290,12 @@ func is64Key(k string) bool {
 // c05Scan scans one scenario and compares every numeric key with
 // min(true, capacity); it recognises the known size-clamp defect precisely.
 func c05Scan(sh *explore.Shard, sc *gen.Scenario, render bool) {
+	c05ScanOrder(sh, sc, render, nil)
+}
+
+func c05ScanOrder(sh *explore.Shard, sc *gen.Scenario, render bool, order []mrepo.ID) {
 	install()
-	env := modelgit.NewEnv(sc.Repo, &modelgit.Plan{})
+	env := modelgit.NewEnv(sc.Repo, &modelgit.Plan{ListOrder: order})
 	res := inproc.Scan(env, inproc.SimpleGrouper{Walk: sc.Walks}, sc.Explicit, sizes.NameStyleNone, nil)
 	sh.C.Evals++
 	mk := func(class, msg string) {
@@ -441,6 +454,17 @@ func c05Worker(sh *explore.Shard) {
 					r, _ := bomb(d, fan, leaf, bs)
 					sc := &gen.Scenario{Repo: r, Desc: fmt.Sprintf("bomb depth=%d fan=%d leaf=%c blob=%d", d, fan, leaf, bs)}
 					c05Scan(sh, sc, true)
+					if leaf == 'f' {
+						// a file beside the subdirectories at every level, delivered in
+						// git's order (parents first) and children-first: a count that is
+						// already saturated, or crosses the capacity, when the file is added
+						r2, _ := bombF(d, fan, leaf, bs, true)
+						sc2 := &gen.Scenario{Repo: r2, Desc: fmt.Sprintf("bomb+file depth=%d fan=%d blob=%d", d, fan, bs)}
+						c05Scan(sh, sc2, false)
+						l := defaultListing(sc2)
+						sc2.Desc += " children-first"
+						c05ScanOrder(sh, sc2, false, reverseNonCommits(r2, l))
+					}
 					if d == 40 && fan == 2 && leaf == 'f' && bs == sizesAlpha[1] {
 						sh.C.Sample(3, map[string]any{"part": "bomb", "desc": sc.Desc, "distinct_objects": len(r.Objects)})
 					}
